@@ -229,6 +229,13 @@ without it; `tools/seeded.py detect <id>` runs the property's quick check agains
 worktree carrying the change; `seeded/README.md` lists every change with the current verdict.
 Currently ''' + "%d changes, %d valid, %d caught" % (len(seeded), nvalid, ncaught) + (" (missed: %s)" % ", ".join(missed) if missed else "") + (" (no longer property-breaking after a later `fix:` and therefore not valid any more: %s)" % ", ".join(obsolete) if obsolete else "") + (" (judged outside the property as stated, reason in its meta.json: %s)" % ", ".join(out_of_scope) if out_of_scope else "") + r'''.
 
+Verdicts on the final tree: after the last strengthening round every valid change of C03-C09, C11, C15-C18 and C20 and
+thirteen of C12 (306 changes) was run again against the checks as committed: all caught (one, C06-w6-m3, had been lost
+when the Verilog base net `n2` gained uses on every bit - a bus whose lowest bit is never used was put back as `n3`).
+For C01, C02, C10, C13, C14, C19 and the rest of C12 a full pass did not fit into the remaining time (their quick checks
+take 1-3 minutes per change): the verdicts of waves 1-7 date from the full re-detection earlier on the last day, those of
+waves 8-9 from their own rounds a few hours before the end; the check changes made after those runs are additions.
+
 * Wave 1 (18 changes; C01, C02, C08-C12, C14, C19): 14 caught at once.  The misses led to S9 (definition
   reshaped after it was instanced, then re-pointed), skeleton K10 (wire-only cell instanced twice), the
   `late-ports` build variant and richer naming seeds (orphan carrying an identifier).
